@@ -146,6 +146,10 @@ def cause_of(ref, n, got, minds):
         seen.add(cur)
         nxt = None
         kids = ref.productions(cur) if ref.is_abstract(cur) else [m for _, t in ref.cls[cur]["fields"] for m in ref.mentioned(t)]
+        if ref.is_abstract(cur):
+            # the minimum depth of an abstract type is decided by its SHALLOWEST production: follow that one (a deeper production
+            # that merely recurses into the type is wrong as a consequence, not as a cause)
+            kids = sorted(kids, key=lambda k: (minds.get(k, INF), k))
         for k in kids:
             if k not in seen and got.get(k) != minds.get(k) and minds.get(k, INF) < INF:
                 nxt = k
